@@ -71,9 +71,29 @@ func InitPKI() {
 	})
 }
 
-// Handshake performs a real TLS handshake over loopback TCP between a client using clientCfg (as
-// http.Transport would: a clone with the server name set; nil = defaults) and a server presenting ca's
-// certificate. It returns nil when the client accepts the server.
+var (
+	srvCfgMu sync.Mutex
+	srvCfgs  = map[*CA]*tls.Config{}
+)
+
+// serverConfig: one long-lived server configuration per CA, so that session tickets issued in one connection can be
+// redeemed in a later one (as with a real provider).
+func serverConfig(ca *CA) *tls.Config {
+	srvCfgMu.Lock()
+	defer srvCfgMu.Unlock()
+	c := srvCfgs[ca]
+	if c == nil {
+		c = &tls.Config{Certificates: []tls.Certificate{ca.Server}}
+		srvCfgs[ca] = c
+	}
+	return c
+}
+
+// Handshake performs a real TLS connection over loopback TCP between a client using clientCfg (as http.Transport
+// would: a clone with the server name set; nil = defaults) and a long-lived server presenting ca's certificate: full
+// handshake (or session resumption, if the client configuration caches sessions), one application byte from the
+// server so that the client also processes the server's session tickets, then close. It returns nil when the client
+// accepts the server.
 func Handshake(clientCfg *tls.Config, ca *CA) error {
 	ln, err := net.Listen("tcp", "127.0.0.1:0")
 	if err != nil {
@@ -89,8 +109,9 @@ func Handshake(clientCfg *tls.Config, ca *CA) error {
 		}
 		defer s.Close()
 		_ = s.SetDeadline(time.Now().Add(10 * time.Second))
-		srv := tls.Server(s, &tls.Config{Certificates: []tls.Certificate{ca.Server}})
+		srv := tls.Server(s, serverConfig(ca))
 		if srv.Handshake() == nil {
+			_, _ = srv.Write([]byte{'k'})
 			// wait for the client to hang up
 			var b [1]byte
 			_, _ = srv.Read(b[:])
@@ -110,6 +131,10 @@ func Handshake(clientCfg *tls.Config, ca *CA) error {
 	_ = c.SetDeadline(time.Now().Add(10 * time.Second))
 	cl := tls.Client(c, cfg)
 	herr := cl.Handshake()
+	if herr == nil {
+		var b [1]byte
+		_, _ = cl.Read(b[:])
+	}
 	c.Close()
 	<-done
 	return herr
